@@ -3,7 +3,7 @@
 #include "x_reader_core.c"
 #include "x_writer_core.c"
 #define T int8_t
-#define NATIVE8 1
+#define NATIVE 1
 #define CONVT(p) (*(p))
 #define CTORT(w, v) (*(w) = (v))
 #include "x_rw_tmpl.inc"
